@@ -242,6 +242,8 @@ def gen_ops(rng, spec, n):
                 ops.append(("setstepmon", rng.random() < 0.2, "k", rng.choice([-1.0, 4.0, 0.5, -2.0, 1.0])))
             else:
                 ops.append(("setstepmon", rng.random() < 0.2, kindm))
+        elif k < 0.985 and spec.get("monitor_ops") and rng.random() < 0.3:
+            ops.append(("monadd", rng.choice(["step", "eval"])))
         elif k < 0.985 and spec.get("monitor_ops"):
             if rng.random() < 0.35:
                 ops.append(("setevalmon", rng.random() < 0.3, rng.choice([-1.0, 4.0, 0.5])))
